@@ -49,6 +49,14 @@ CLAIMED = {
    technique="abstract interpretation: glob translation table over every character class, escape pair and mixed patterns; both back-ends' lookup functions on all paragraph/pattern lists of length <= 3 with stubbed match results; symbolic Format gate",
    text="glob_to_regex's output is compared with the DEP-5 translation for all 131 single characters, the three escapes and mixed patterns (anchors included); find_files of both back-ends must return the last matching paragraph for every match assignment on lists up to 3; matches = any over the patterns; lossless files() and lossy deserialize_file_list tokenise the same whitespace-separated list; find_license_for_file returns the own licence when it carries text and otherwise the by-name lookup of exactly that name; find_license_by_name returns the first stand-alone paragraph of the name; the three text entry points return the not-machine-readable error for inputs not starting with 'Format:'.",
    note="Regex matching semantics are trusted to the regex crate ('.' vs newline); regex::escape is modelled from its documented meta-character set; lists are bounded to length 3 (uniform iterator chains)."),
+ "C15": dict(level="other", ref="4/C15",
+   technique="abstract interpretation of every setter/getter pair of the lossless typed views against an ordered list-of-pairs paragraph model with symbolic values",
+   text="All 146 set_x/x pairs of the typed views (145 decidable today) are interpreted: the setter on an empty paragraph and on a paragraph that already holds the field between two foreign fields; checks: exactly one field written, its name equals the Debian name derived from the accessor (explicit exception table), set-not-insert, replacement in place, foreign fields untouched, clearing removes the field, and the getter applied to the stored text returns the argument (so separators, yes/no flags and FromStr/Display codecs of getter and setter must agree). Control::source/binaries select by Source/Package; Source::vcs reaches Vcs::from_field with a table name.",
+   note="Values are opaque single-line atoms; heavy value types (lossless/lossy Relations, Version, Url, dates, Vcs) are assumed to print/parse an atom unchanged; the paragraph is the ordered-list model (C04 decides the real editor). One genuine defect is a known finding (set_long_description on a header without description)."),
+ "C20": dict(level="other", ref="4/C20",
+   technique="sibling table agreement (lossy derive keys extracted by interpreting the generated to_paragraph vs lossless accessor field names extracted by interpreting every accessor); classification loops of lossy Control/Copyright interpreted on all paragraph sequences <= 3; printer separators and routing",
+   text="Decides the structural clauses: (D4) for the 100+ (document, field) pairs present in both back-ends the lossy key equals the lossless accessor's field name; (D1) lossy Control/Copyright classify paragraphs by Source/Package resp. Files/License exactly as the document model says and reject no/several sources, paragraphs of neither kind; (D2) Control, Copyright and Repositories print paragraphs separated by exactly one empty line; (D3) every lossy document reads through the deb822 reader + its own derived from_paragraph and prints its own to_paragraph. The print/reparse fixpoint itself is not evaluated: it follows from these clauses with C16 (per-field codecs), C08 (printer forms) and C03/C06 (readers).",
+   note="Bounded paragraph sequences (<= 3); paragraph conversions are stubbed in the classification runs (their correctness is C16)."),
 }
 NA_REASON = "check not built yet (construction in progress; see DESIGN.md section 9 build order)"
 
